@@ -714,7 +714,7 @@ func gmeDriverBody(variant int) func(s *vsched.Sched) *vsched.ExecOutcome {
 		if w.poisoned {
 			return &vsched.ExecOutcome{Outcome: "setup-failed", Violations: w.Take()}
 		}
-		targets := [][]int{{6}, {0}, {4, 1}}[variant] // updates applied by the updater thread
+		targets := [][]int{{6}, {0}, {4, 1}, {}}[variant] // updates applied by the updater thread; variant 3: Close instead
 		updDone := false
 		var lateClosed []string
 		rpc := func(name string) func() {
@@ -746,6 +746,10 @@ func gmeDriverBody(variant int) func(s *vsched.Sched) *vsched.ExecOutcome {
 			s.Go("updater", func() {
 				for _, t := range targets {
 					w.gme.UpdateMultiEndpoints(menu[t].build(0, 0, w.dial))
+				}
+				if len(targets) == 0 {
+					w.gme.Close()
+					return // RPCs after Close legitimately reach closed pools
 				}
 				updDone = true
 			}),
@@ -802,7 +806,7 @@ func runGMEDrivers(c *vsched.RunCtx, race bool) {
 	if c.Thorough() {
 		pre, delay = 2, 4
 	}
-	for v := 0; v < 3; v++ {
+	for v := 0; v < 4; v++ {
 		name := fmt.Sprintf("variant=%d", v)
 		if c.Replay != nil {
 			if c.Replay.Harness == "sched:gme-update" && c.Replay.Config == name {
